@@ -504,14 +504,14 @@ func Cleanup() {
 }
 
 // OpenSQLite copies the template into a fresh scratch directory and opens it through the fault driver.
-func OpenSQLite(tag string) *Backend {
+func OpenSQLite(tag string, pragmas ...string) *Backend {
 	t := Template(tag)
 	dir, rm := sqlx.Scratch(tag)
 	path := filepath.Join(dir, "db.sqlite")
 	if err := sqlfault.CopyFile(t, path); err != nil {
 		panic(err)
 	}
-	b, err := OpenSQLiteAt(path)
+	b, err := OpenSQLiteAt(path, pragmas...)
 	if err != nil {
 		rm()
 		panic(err)
@@ -523,9 +523,9 @@ func OpenSQLite(tag string) *Backend {
 }
 
 // OpenSQLiteAt opens an existing database file (e.g. a crash image) through the fault driver.
-func OpenSQLiteAt(path string) (*Backend, error) {
+func OpenSQLiteAt(path string, pragmas ...string) (*Backend, error) {
 	ctl := sqlfault.NewController()
-	ds, err := sqlfault.OpenDatastore(path, ctl, "synchronous(OFF)")
+	ds, err := sqlfault.OpenDatastore(path, ctl, append([]string{"synchronous(OFF)"}, pragmas...)...)
 	if err != nil {
 		ctl.Release()
 		return nil, err
